@@ -1,10 +1,12 @@
 """C19 — instrument scan definitions are well-formed, symmetric and subset-consistent."""
 import datetime as dt
 import math
+import os
 
 import numpy as np
 
 import lib
+from props.c03 import DST_ZONES, process_zone, zone_switches   # switch instants of the process time zone (tm_gmtoff scan)
 
 ID = "C19"
 LEAN_TARGETS = ["PV.Props.C19"]
@@ -18,7 +20,19 @@ RULE = ("every definition function (avhrr, avhrr_gac [int and datetime-list scan
         "unsorted random subsets, single point, empty; VIIRS: scan_indices slices (also negative step) and lists with "
         "negative indices}; full-width VIIRS only for 1-2 scans (3 in thorough). correspondence: fovs (both rows, every "
         "line) at 1e-12 relative and times(start) as integer ns, exactly, against the Float reading of the Lean model; "
-        "oracle: every clause of the statement on the implementation alone; distinct = (instrument, lines, selection)")
+        "oracle: every clause of the statement on the implementation alone; "
+        "avhrr_gac with a LIST of line time stamps (correspondence and oracle): stamps on the 0.5 s scan grid, consecutive "
+        "(2-50 lines; the geometry must be the one of the count form: all timing clauses, columns of the full geometry) and "
+        "with gaps of 1 scan .. 2.8 h (span < 1 day; oracle only: increasing along a line, a line ends before the next "
+        "begins, consecutive stamps one period apart, columns of the full geometry of the same list), starting at arbitrary "
+        "microseconds on ordinary days 1990-2049 and placed so that the list straddles the begin / the end of the skipped or "
+        "repeated wall-clock hour, or the UTC instant, of both clock changes of the process time zone in a random year (zones "
+        "without switches: a POSIX rule zone set with time.tzset for the case and recorded in it; one case of another zone); "
+        "reuse: ONE position array (float64 holding whole or half-pixel positions, or int64) handed as itself and as views "
+        "(slices, reversed, strided) to 4-7 calls of avhrr / avhrr_gac (count and list form) / amsua / mhs / hirs4 / mwhs2 / "
+        "atms / ascat / olci / slstr_nadir in a row: after every call the array is bit-identical to what the caller put in "
+        "and fovs and times equal those of a call with a fresh copy of the same positions; "
+        "distinct = (instrument, lines, selection[, stamps | call sequence])")
 ASSUMPTIONS = ["default options of the definition functions (scan_angle, frequency, chn_pixels=6400, scan_lines=32, "
                "scan_step=1, apply_offset=True); scan points are integers inside the instrument's full set "
                "(negative indices only through VIIRS scan_indices)",
@@ -28,6 +42,9 @@ ASSUMPTIONS = ["default options of the definition functions (scan_angle, frequen
                "'lines of a scan share the same angles' is read for VIIRS as: across-track angles equal on every line, "
                "along-track angle constant along a line and equal for the same detector in every scan; 'a line ends "
                "before the next begins' is read per scan for VIIRS (its 32 detector lines are simultaneous)",
+               "avhrr_gac given a list of line time stamps: stamps on the 0.5 s scan grid, strictly increasing, the whole list "
+               "spanning less than one day (the statement's scans are successive; the code takes `(t - t0).seconds`, which "
+               "wraps for a stamp a day or more after - or any time before - the first one)",
                "swath limits, scan periods and position counts the oracle judges against are the published values "
                "currently in the source (theorems swath_values / period_values / npos_values pin them)"]
 TRUSTED = ["model PV.Model.Instruments (hand-written after geoloc_instrument_definitions.py and ScanGeometry.__init__; every "
@@ -95,7 +112,17 @@ def resolve(name, sel):
     return list(sel["points"])  # "points"
 
 
-def build(name, lines, sel, variant=None):
+def line_stamps(lines, line_times=None):
+    """The list of line time stamps of the datetime-list form of avhrr_gac: t0 + 0.5 s * steps[k] (default: 2020-01-01 12:00,
+    consecutive scans)."""
+    if not line_times:
+        t0, steps = dt.datetime(2020, 1, 1, 12, 0, 0), list(range(lines))
+    else:
+        t0, steps = dt.datetime.fromisoformat(line_times["t0"]), list(line_times["steps"])
+    return [t0 + dt.timedelta(microseconds=500000 * int(m)) for m in steps]
+
+
+def build(name, lines, sel, variant=None, line_times=None):
     """Call the real definition function."""
     g = _defs()
     k = sel["kind"]
@@ -126,8 +153,7 @@ def build(name, lines, sel, variant=None):
         pts = np.array(resolve(name, sel), dtype=int)
     if name == "avhrr_gac":
         if variant == "datetimes":
-            t0 = dt.datetime(2020, 1, 1, 12, 0, 0)
-            return g.avhrr_gac([t0 + dt.timedelta(microseconds=500000 * i) for i in range(lines)], pts)
+            return g.avhrr_gac(line_stamps(lines, line_times), pts)
         return g.avhrr_gac(lines, pts)
     if name in ("avhrr",):
         return g.avhrr(lines, pts)
@@ -282,10 +308,25 @@ def correspond(ctx):
         if vol > 600000:
             flush()
     flush()
+    # avhrr_gac with a list of line time stamps on the scan grid (consecutive scans): the model's count-form geometry
+    stamped = [c for c in gen_gac_lists(ctx) if c["consecutive"]]
+    outs = drv.run([model_line("avhrr_gac", c["lines"], resolve("avhrr_gac", c["selection"])) for c in stamped])
+    for c, o in zip(stamped, outs):
+        ctx.bump("corr_gac_stamps", c["placement"])
+        compare_one(ctx, "avhrr_gac", c["lines"], c["selection"], "datetimes", resolve("avhrr_gac", c["selection"]), o,
+                    extra={"line_times": c["line_times"], "process_tz": c["process_tz"], "placement": c["placement"]})
 
 
-def compare_one(ctx, name, lines, sel, variant, pts, out):
+def compare_one(ctx, name, lines, sel, variant, pts, out, extra=None):
     case = case_json(name, lines, sel, variant)
+    if extra:
+        case.update(extra)
+        with process_zone(extra.get("process_tz")):
+            return _compare_one(ctx, name, lines, sel, variant, pts, out, case, extra.get("line_times"))
+    return _compare_one(ctx, name, lines, sel, variant, pts, out, case, None)
+
+
+def _compare_one(ctx, name, lines, sel, variant, pts, out, case, line_times):
     ctx.count("eval_corr")
     ctx.bump("corr_instrument", name)
     ctx.distinct((name, lines, sel_key(sel), variant or ""))
@@ -293,7 +334,7 @@ def compare_one(ctx, name, lines, sel, variant, pts, out):
         raise lib.DriverError("c19 handler: " + out)
     r0, r1, tm = parse_model(out)
     try:
-        geom = build(name, lines, sel, variant)
+        geom = build(name, lines, sel, variant, line_times)
     except Exception as e:  # noqa
         ctx.disagree("c19", case, "raised %s: %s" % (type(e).__name__, e), "shape %s" % (r0.shape,))
         return
@@ -329,14 +370,17 @@ def compare_one(ctx, name, lines, sel, variant, pts, out):
 
 
 # ------------------------------------------------------------------ the property on the implementation
-def judge(name, lines, sel, variant=None, full_cache=None, check_subset=True):
-    """All clauses of the statement for one (instrument, lines, selection). Returns list of (kind, observed, required)."""
+def judge(name, lines, sel, variant=None, full_cache=None, check_subset=True, line_times=None):
+    """All clauses of the statement for one (instrument, lines, selection). Returns list of (kind, observed, required).
+    line_times (datetime-list form of avhrr_gac): {"t0", "steps"}: line k is scan steps[k] of the 0.5 s scan grid."""
     sp = SPEC[name]
     bad = []
     pts = resolve(name, sel)
     P = len(pts)
     L = lines * sp.get("det", 1)
-    geom = build(name, lines, sel, variant)
+    steps = list(line_times["steps"]) if line_times else list(range(lines))
+    gapped = steps != list(range(lines))
+    geom = build(name, lines, sel, variant, line_times)
     use_geometry(geom)
     fovs = np.asarray(geom.fovs)
     t, dtype = times_ns(geom, "np")
@@ -411,7 +455,9 @@ def judge(name, lines, sel, variant=None, full_cache=None, check_subset=True):
                 bad.append(("line_overlaps_next", {"scan": k, "ends_ns": int(ends[k]), "next_begins_ns": int(begins[k + 1])},
                             "end < next begin"))
             dev = np.abs((t[det:] - t[:-det]).astype(np.float64) - per_ns)
-            if dev.max() > 2.0:
+            if gapped:        # stamps that are not consecutive scans: only consecutive pairs are "successive scans"
+                dev = dev[np.diff(np.array(steps)) == 1]
+            if dev.size and dev.max() > 2.0:
                 idx = np.unravel_index(int(np.argmax(dev)), dev.shape)
                 bad.append(("scan_offset", {"line": int(idx[0]), "col": int(idx[1]),
                                             "delta_ns": int((t[det:] - t[:-det])[idx])}, "period %.3f ns +- 2" % per_ns))
@@ -420,7 +466,10 @@ def judge(name, lines, sel, variant=None, full_cache=None, check_subset=True):
     # subset consistency
     if check_subset and name not in RESAMPLERS and sel["kind"] not in ("default",):
         key = (name, lines)
-        if full_cache is not None and key in full_cache:
+        if gapped:            # the full geometry of the same list of stamps
+            fg = build(name, lines, {"kind": "default"}, variant, line_times)
+            ffov, ft = np.asarray(fg.fovs), times_ns(fg, "np")[0]
+        elif full_cache is not None and key in full_cache:
             ffov, ft = full_cache[key]
         else:
             fg = build(name, lines, {"kind": "default"})
@@ -437,6 +486,177 @@ def judge(name, lines, sel, variant=None, full_cache=None, check_subset=True):
                 d = int(np.abs(t - ft[:, cols]).max())
                 bad.append(("subset_times_differ", d, "0 ns"))
     return bad
+
+
+# ------------------------------------------------------------------ avhrr_gac: lists of line time stamps
+def gen_gac_lists(ctx):
+    """Lists of line time stamps for avhrr_gac: t0 + 0.5 s * steps[k].  The stamps are UTC; pyorbital's answer is the line
+    timing relative to the first line, whatever the wall clock of the process' zone does at those instants: lists on
+    ordinary days, and lists that straddle the begin / the end of the skipped or repeated wall-clock hour (stamps read as
+    naive local values) or the UTC instant of a clock change of the process time zone."""
+    r = ctx.rng
+    thorough = ctx.tier == "thorough" or ctx.intensified
+    cur = os.environ.get("TZ")
+    with process_zone(cur):
+        has = bool(zone_switches(2021))
+    zone = cur if has else r.choice(DST_ZONES)
+    other = r.choice([z for z in DST_ZONES if z != zone])
+    out = []
+
+    def one(anchor, placement, tz, consecutive):
+        lines = r.choice([2, 3, 7, 50]) if not thorough or r.random() < 0.5 else r.randint(2, 50)
+        if consecutive:
+            steps = list(range(lines))
+        else:
+            steps = [0]
+            for _ in range(lines - 1):
+                m = steps[-1] + r.choice([1, 1, 2, 3, 120, 7200, 20000])
+                if m * 0.5 >= 86000.0:           # the statement's scans are successive: no list spanning a day
+                    break
+                steps.append(m)
+            lines = len(steps)
+        span = steps[-1] * 0.5
+        if anchor is None:
+            t0 = dt.datetime(1990, 1, 1) + dt.timedelta(seconds=r.randrange(0, 60 * 366 * 86400), microseconds=r.choice([0, r.randrange(10 ** 6)]))
+        else:
+            k = r.random()
+            if k < 0.4:        # a stamp exactly on the anchor
+                t0 = anchor - dt.timedelta(microseconds=500000 * r.choice(steps[1:]))
+            else:
+                t0 = anchor - dt.timedelta(seconds=r.uniform(0.0, span))
+                t0 = t0.replace(microsecond=r.choice([t0.microsecond, 0, 250000]))
+        n = SPEC["avhrr_gac"]["n"]
+        a = r.randrange(0, n - 1)
+        sel = r.choice([{"kind": "default"}, {"kind": "slice", "slice": [a, r.randrange(a + 1, n + 1), r.choice([None, 5, 40])]},
+                        {"kind": "points", "points": sorted(r.sample(range(n), r.randrange(2, 40)))},
+                        {"kind": "points", "points": r.sample(range(n), r.randrange(1, 40))}, {"kind": "points", "points": [0, n - 1]}])
+        out.append({"lines": lines, "selection": sel, "consecutive": consecutive, "process_tz": tz, "placement": placement,
+                    "line_times": {"t0": t0.isoformat(), "steps": steps}})
+
+    for tz, reps, all_switches in ((zone, 3 if thorough else 1, True), (other, 2 if thorough else 1, False)):
+        for _ in range(reps):
+            with process_zone(tz):
+                sw = zone_switches(r.randint(1990, 2049))
+            if not sw:
+                continue
+            for (s_, off0, off1) in (sw if all_switches else [r.choice(sw)]):
+                s_utc = dt.datetime(1970, 1, 1) + dt.timedelta(seconds=s_)
+                d = "forward" if off1 > off0 else "back"
+                anchors = (("hour_begin", s_utc + dt.timedelta(seconds=min(off0, off1))),
+                           ("hour_end", s_utc + dt.timedelta(seconds=max(off0, off1))), ("utc_instant", s_utc))
+                for nm, x in (anchors if all_switches else [r.choice(anchors)]):
+                    one(x, "%s/%s" % (d, nm), tz, True)
+                    if all_switches:
+                        one(x, "%s/%s/gaps" % (d, nm), tz, False)
+    for _ in range(12 if thorough else 3):
+        one(None, "ordinary_day", None, True)
+        one(None, "ordinary_day/gaps", None, False)
+    return out
+
+
+def gac_list_oracle(ctx):
+    cache = {}
+    for c in gen_gac_lists(ctx):
+        ctx.count("eval_oracle")
+        ctx.count("eval_oracle_gac_stamp_lists")
+        ctx.bump("oracle_gac_stamps", c["placement"])
+        ctx.distinct(("avhrr_gac", c["lines"], sel_key(c["selection"]), c["line_times"]["t0"]))
+        case = case_json("avhrr_gac", c["lines"], c["selection"], "datetimes")
+        case.update({"line_times": c["line_times"], "process_tz": c["process_tz"], "placement": c["placement"]})
+        try:
+            with process_zone(c["process_tz"]):
+                bad = judge("avhrr_gac", c["lines"], c["selection"], "datetimes", cache, line_times=c["line_times"])
+        except Exception as e:  # noqa
+            bad = [("raised", "%s: %s" % (type(e).__name__, e), "a ScanGeometry")]
+        for (kind, obs, req) in bad[:3]:
+            ctx.violation(kind, case, obs, req, site="geoloc_instrument_definitions.avhrr_gac")
+
+
+# ------------------------------------------------------------------ one position array reused across calls
+FLOAT_OK = ("avhrr", "avhrr_gac", "avhrr_gac:datetimes", "amsua", "mhs", "hirs4", "mwhs2", "olci", "slstr_nadir")
+INT_ONLY = ("atms", "ascat")
+
+
+def _view(arr, view):
+    return arr if view[0] == "whole" else arr[slice(*view[1:])]
+
+
+def _call_def(fn, lines, pts):
+    g = _defs()
+    if fn == "avhrr_gac:datetimes":
+        return g.avhrr_gac(line_stamps(lines), pts)
+    return getattr(g, fn)(lines, pts)
+
+
+def gen_reuse(ctx):
+    """{"dtype", "half", "size", "calls": [[definition, lines, view]]}: the caller's array holds the positions 0 .. size-1
+    (+ 0.5 when half), view = ["whole"] or ["slice", a, b, c] of that array."""
+    r = ctx.rng
+    dtype = r.choice(["float64", "float64", "float64", "int64"])
+    half = dtype == "float64" and r.random() < 0.4
+    size = 2047 if half else 2048
+    fns = list(FLOAT_OK) + (list(INT_ONLY) if dtype == "int64" else [])
+    calls = []
+    for i in range(r.randint(4, 7)):
+        fn = r.choice(["avhrr", "avhrr", "avhrr_gac", "avhrr_gac:datetimes"] + fns) if i else r.choice(["avhrr", "avhrr_gac", "avhrr_gac:datetimes", r.choice(fns)])
+        n = min(size, SPEC[fn.split(":")[0]]["n"] - (1 if half else 0))
+        k = r.random()
+        if n == size and k < 0.3:
+            view = ["whole"]
+        elif k < 0.5:
+            view = ["slice", 0, n, None]
+        elif k < 0.7:
+            view = ["slice", r.randrange(0, n // 2), n, r.choice([2, 3, 5, 40])]
+        elif k < 0.85:
+            a = r.randrange(0, n - 2)
+            view = ["slice", a, r.randrange(a + 2, n + 1), None]
+        else:
+            view = ["slice", n - 1, None, -r.choice([1, 2, 7])]
+        if fn == "ascat" and len(range(size)[slice(*view[1:])] if view[0] != "whole" else range(size)) < 2:
+            view = ["slice", 0, n, None]
+        calls.append([fn, r.choice([1, 2, 3, 7]), view])
+    return {"dtype": dtype, "half": half, "size": size, "calls": calls}
+
+
+def reuse_probe(spec):
+    """One array object, handed (itself / views of it) to the calls in turn.  Returns (kind, call index, observed, required)
+    of the first call after which the array differs from what the caller put in, or whose geometry differs from the one a
+    fresh copy of the same positions gives; None when all calls are clean."""
+    arr = np.arange(spec["size"], dtype=np.dtype(spec["dtype"]))
+    if spec["half"]:
+        arr += 0.5
+    orig = arr.copy()
+    for i, (fn, lines, view) in enumerate(spec["calls"]):
+        want_pts = _view(orig, view).copy()
+        try:
+            fresh = _call_def(fn, lines, want_pts.copy())
+            got = _call_def(fn, lines, _view(arr, view))
+        except Exception as e:  # noqa
+            return ("raised", i, "%s(%d lines, %s): %s: %s" % (fn, lines, view, type(e).__name__, e), "a ScanGeometry")
+        if arr.dtype != orig.dtype or not np.array_equal(arr, orig):
+            j = int(np.flatnonzero(arr != orig)[0]) if arr.shape == orig.shape else -1
+            return ("argument_modified", i, "after %s(%d lines, positions %s of the array) the caller's array holds %r at index %d" % (
+                fn, lines, view, float(arr[j]), j), "the position array unchanged (%r)" % float(orig[j]))
+        s64 = np.datetime64(START, "ns")
+        if not (np.array_equal(np.asarray(got.fovs), np.asarray(fresh.fovs)) and np.array_equal(got.times(s64), fresh.times(s64))):
+            d = float(np.abs(np.asarray(got.fovs) - np.asarray(fresh.fovs)).max()) if np.shape(got.fovs) == np.shape(fresh.fovs) else "shape"
+            return ("reuse_differs", i, "%s(%d lines, positions %s of the reused array): angles differ by %s rad from the geometry "
+                    "of a fresh copy of the same positions" % (fn, lines, view, d), "the same geometry as for a fresh copy")
+    return None
+
+
+def reuse_oracle(ctx):
+    for _ in range(ctx.size(16, 200)):
+        spec = gen_reuse(ctx)
+        ctx.count("eval_oracle")
+        ctx.count("eval_oracle_reuse_calls", len(spec["calls"]))
+        ctx.bump("oracle_reuse", "%s%s" % (spec["dtype"], "/half-pixel" if spec["half"] else ""))
+        ctx.distinct(("reuse", spec["dtype"], spec["half"], str(spec["calls"])))
+        res = reuse_probe(spec)
+        if res:
+            kind, i, obs, req = res
+            fn = spec["calls"][i][0].split(":")[0]
+            ctx.violation(kind, {"reuse": spec, "failing_call": i, "instrument": fn}, obs, req, site="geoloc_instrument_definitions." + fn)
 
 
 SITE = {"viirs": "geoloc_instrument_definitions.viirs"}
@@ -470,6 +690,10 @@ def oracle(ctx):
         ctx.note("ascat accepted a single scan point")
     except ValueError:
         ctx.count("ascat_single_point_refused")
+    # avhrr_gac given a list of line time stamps: ordinary days and lists straddling the clock changes of the process zone
+    gac_list_oracle(ctx)
+    # one position array (float64 / int64, whole and half-pixel positions) reused, with views of it, across calls
+    reuse_oracle(ctx)
 
 
 def match_known(entry, v):
@@ -479,7 +703,7 @@ def match_known(entry, v):
 
 def replay(ctx, case):
     inp = case.get("input", case)
-    if "instrument" not in inp:
+    if "instrument" not in inp and "reuse" not in inp:
         stages = [b.get("stage") for b in case.get("broken", [])]
         print("tie replay (no failing input was found); broken:", stages)
         if any(st in ("build-proofs", "audit", "audit-grep", "regenerate") for st in stages):
@@ -497,7 +721,8 @@ def replay(ctx, case):
                 try:
                     out = lib.Driver().run([model_line(c["instrument"], c["lines"], resolve(c["instrument"], c["selection"]))])[0]
                     r0, r1, tm = parse_model(out)
-                    geom = build(c["instrument"], c["lines"], c["selection"], c.get("variant"))
+                    with process_zone(c.get("process_tz")):
+                        geom = build(c["instrument"], c["lines"], c["selection"], c.get("variant"), c.get("line_times"))
                     f = np.asarray(geom.fovs)
                     same = f.shape == (2,) + r0.shape and angles_close(f[0], r0) and angles_close(f[1], r1) and \
                         np.array_equal(times_ns(geom)[0], tm)
@@ -508,8 +733,13 @@ def replay(ctx, case):
                     print("case", c, "->", type(e).__name__, e)
                     return 1
         return 0
+    if "reuse" in inp:
+        res = reuse_probe(inp["reuse"])
+        print("reuse of one position array:", res if res else "all calls clean")
+        return 1 if res else 0
     try:
-        bad = judge(inp["instrument"], inp["lines"], inp["selection"], inp.get("variant"))
+        with process_zone(inp.get("process_tz")):
+            bad = judge(inp["instrument"], inp["lines"], inp["selection"], inp.get("variant"), line_times=inp.get("line_times"))
     except Exception as e:  # noqa
         bad = [("raised", "%s: %s" % (type(e).__name__, e), "a ScanGeometry")]
     for b in bad:
